@@ -159,6 +159,57 @@ class CallCounter:
         return None
 
 
+# Library functions that write state shared between validations (the targeted variant of the async abort lands
+# on a call made from inside one of them; a name that an operation never reaches simply never fires).
+ABORT_TARGETS = (
+    ('identities.py', 'update_elements'), ('elements.py', 'raw_decode'), ('elements.py', 'check_dynamic_context'),
+    ('elements.py', 'collect_key_fields'), ('xsd_globals.py', 'build'), ('xsd_globals.py', 'clear'),
+    ('xsd_globals.py', 'protect_status'), ('xsd_globals.py', 'get_instance_type'), ('loaders.py', 'load_namespace'),
+    ('loaders.py', 'load_schema'), ('loaders.py', 'import_namespace'), ('caching.py', '__call__'),
+    ('caching.py', '__get__'), ('selectors.py', 'cached_selector'), ('schemas.py', 'validation_context'),
+    ('attributes.py', 'raw_decode'), ('wildcards.py', 'raw_decode'), ('xml_loader.py', '_lazy_iterparse'),
+    ('xml_loader.py', 'iter_depth'), ('validation.py', 'clear'), ('validation.py', '__copy__'),
+    ('identities.py', '__init__'), ('identities.py', 'increase'), ('simple_types.py', 'text_decode'),
+    ('complex_types.py', 'raw_decode'), ('groups.py', 'raw_decode'), ('assertions.py', '__call__'),
+    ('xml_resource.py', 'iterfind'), ('xml_resource.py', 'get_nsmap'), ('sax.py', 'defuse_xml'),
+)
+
+
+HOT_TARGETS = (0, 0, 0, 1, 3, 7, 8, 11, 13)      # update_elements, raw_decode, collect_key_fields, get_instance_type, ...
+
+
+class TargetedAbort:
+    """Aborts at the j-th library call made (directly or one level down) from inside the target function."""
+    def __init__(self, target, j):
+        self.prefixes = lib_prefixes()
+        self.target = tuple(target)
+        self.j = j
+        self.n = 0
+        self.fired_in = None
+
+    def __call__(self, frame, event, arg):
+        if event != 'call' or self.fired_in is not None:
+            return None
+        code = frame.f_code
+        if not code.co_filename.startswith(self.prefixes) or code.co_flags & 0x20:
+            return None
+        back = frame.f_back
+        for _ in range(2):
+            if back is None:
+                return None
+            bc = back.f_code
+            if bc.co_name == self.target[1] and bc.co_filename.endswith(os.sep + self.target[0]):
+                break
+            back = back.f_back
+        else:
+            return None
+        self.n += 1
+        if self.n >= self.j:
+            self.fired_in = f"{os.path.basename(code.co_filename)}:{code.co_name}"
+            raise AsyncAbort(f"{self.target[0]}:{self.target[1]}>{self.fired_in}")
+        return None
+
+
 # --------------------------------------------------------------------------
 # executing one op on the shared schema
 
@@ -198,6 +249,69 @@ def exec_op(schema, entry, env, op, counters=None):
         hooks.update(make_hooks(abort))
         out['judged'] = False
     call['src'] = src
+
+    peer = None
+    if abort and abort['kind'] == 'fetch_fail':
+        # a transient failure of the peer behind the on-demand location hints, for the length of this operation
+        # (k odd: only the first fetch fails)
+        peer = env.peer
+        pages = sorted(entry.family.peer_pages()) if hasattr(entry.family, 'peer_pages') else []
+        if peer is None or not pages:
+            abort = None
+        else:
+            del peer.fired[:]
+            for url in pages:
+                peer.inject(url, [('urlerror', 'timeout', 'http404')[abort['k'] % 3]] * (1 if abort['k'] % 2 else 64))
+            out['judged'] = False
+            try:
+                res, _ = ops.run_op(schema, env, data, call, hooks)
+            finally:
+                peer.injected.clear()
+            out['res'] = res
+            out['aborted'] = bool(peer.fired)
+            count('fetch_fail_fired' if peer.fired else 'fetch_fail_not_reached')
+            return out
+
+    if abort and abort['kind'] == 'async_in':
+        target = ABORT_TARGETS[abort['t'] % len(ABORT_TARGETS)]
+        j = abort.get('j')
+        if j is None:
+            # positional variant: a measuring pass on a forked copy (the operation may write the state the abort is
+            # after) counts the calls under the target; 'last' is the call nearest to the function's commit
+            def measure():
+                m = TargetedAbort(target, 1 << 60)
+                sys.settrace(m)
+                try:
+                    ops.run_op(schema, env, data, call, hooks)
+                except BaseException:
+                    pass
+                finally:
+                    sys.settrace(None)
+                return m.n
+            kind_, n = fork_call(measure, (), timeout=100)
+            if kind_ != 'ok':
+                raise RuntimeError(f'measuring pass failed: {kind_} {n}')
+            j = {'first': 1, 'last': n, 'last1': max(1, n - 1)}.get(abort['pos']) or 1 + int(abort.get('frac', 0.5) * n)
+            if n == 0:
+                j = 1
+            out['measured'] = n
+        ta = TargetedAbort(target, j)
+        sys.settrace(ta)
+        try:
+            try:
+                res, _ = ops.run_op(schema, env, data, call, hooks)
+            finally:
+                sys.settrace(None)
+            out['res'] = res
+            out['judged'] = False
+            count('targeted_abort_swallowed_or_unreached')
+        except AsyncAbort as e:
+            out['res'] = {'k': 'raise', 'cls': 'AsyncAbort', 'msg': str(e)}
+            out['aborted'] = True
+            out['judged'] = False
+            count('targeted_abort_fired')
+            count('targeted_abort_in_' + str(e).split('>')[0])
+        return out
 
     if abort and abort['kind'] == 'async':
         # abort at the k-th library call of the operation, k log-uniform in [100, 20000] from the case's
